@@ -1,4 +1,7 @@
-from vlib import H
+from vlib import H as _H
+def H(*a, **k):
+    k.setdefault('diff_runs', 12)
+    return _H(*a, **k)
 PROPERTY = 'C54'
 LEVEL = 'model_checking'
 CLAIM = ('Real chain.cpp/chain.h navigation code (GetSkipHeight, InvertLowestOne, CBlockIndex::BuildSkip/GetAncestor, LastCommonAncestor, CChain::SetTip/Contains/'
@@ -10,8 +13,8 @@ NLINK = ['chain.cpp', 'arith_uint256.cpp', 'uint256.cpp']
 FN = ['GetSkipHeight', 'InvertLowestOne', 'CBlockIndex::BuildSkip', 'CBlockIndex::GetAncestor', 'LastCommonAncestor', 'CChain::SetTip', 'CChain::FindFork', 'CChain::Contains/Next/operator[]/Height/Tip/Genesis',
       'LocatorEntries', 'GetBitsProof', 'GetBlockProof']
 def trees(quick):
-    t = [(5, 4, 3), (1, 3, 3), (9, 7, 0), (2, 1, 12), (8, 8, 8)]
-    if not quick: t += [(16, 12, 12), (3, 20, 17), (33, 3, 4), (1, 1, 1), (1, 0, 0), (20, 0, 20)]
+    t = [(5, 4, 3), (1, 3, 3), (6, 5, 0), (2, 1, 8), (3, 0, 4)]
+    if not quick: t += [(9, 7, 0), (2, 1, 12), (8, 8, 8), (1, 1, 1), (1, 0, 0), (10, 0, 10)]
     return [{'TR': a, 'BA': b, 'BB': c} for a, b, c in t]
 # loops of the code under test get exact bounds (checked by unwinding assertions); harness/oracle loops are concrete and covered by the global bound
 REAL_LOOPS = ['_ZNK11CBlockIndex11GetAncestorEi.0', '_Z18LastCommonAncestorPK11CBlockIndexS1_.0', '_Z18LastCommonAncestorPK11CBlockIndexS1_.1', '_Z18LastCommonAncestorPK11CBlockIndexS1_.2',
@@ -21,11 +24,19 @@ def us(n):
     return ','.join('%s:%d' % (x, n) for x in REAL_LOOPS)
 HARNESSES = [
     H('skip', 'c54.cpp', 'h_skip', link=LINK, functions=FN, unwind=34, bounds='all heights 0..2^31-1 (full domain), no loops in the code under test', timeout=300, backends=['default', 'kissat']),
-    H('ancestor', 'c54_nav.cpp', 'h_ancestor', link=NLINK, functions=FN, variants=[{'NBLK': 24}], tvariants=[{'NBLK': 24}, {'NBLK': 40}, {'NBLK': 70}],
-      unwind=1000, unwindset=lambda v: us(v['NBLK'] + 2), bounds='linear chains of 24 blocks (thorough 40, 70); every (start block, height) pair enumerated, out-of-range heights symbolic (any 32-bit int)', timeout=300),
-    H('tree', 'c54_nav.cpp', 'h_tree', link=NLINK, functions=FN, variants=trees(True), tvariants=trees(False), unwind=1000,
+    H('ancestor', 'c54_nav.cpp', 'h_ancestor', link=NLINK, functions=FN, variants=[{'NBLK': 24, 'SYMK': 0}], tvariants=[{'NBLK': 24, 'SYMK': 9}, {'NBLK': 40, 'SYMK': 0}, {'NBLK': 70, 'SYMK': 0}],
+      unwind=100000, unwindset=lambda v: us(v['NBLK'] + 2), bounds='linear chains of 24 blocks (thorough 40, 70); every (start block, height) pair enumerated, heights -1, height+1, INT_MAX, INT_MIN on every block, plus one block (genesis; thorough: height 9) queried with a fully symbolic 32-bit height', timeout=300),
+    H('tree', 'c54_nav.cpp', 'h_tree', link=NLINK, functions=FN, variants=trees(True), tvariants=trees(False), unwind=100000,
       unwindset=lambda v: us(v['TR'] + v['BA'] + v['BB'] + 2),
-      bounds='two-branch trees (trunk, branch a, branch b) of sizes (5,4,3) (1,3,3) (9,7,0) (2,1,12) (8,8,8), thorough up to 40 blocks; every pair of blocks and every (block, height) pair enumerated; chain index height symbolic', timeout=300),
-    H('locator', 'c54_nav.cpp', 'h_locator', link=NLINK, functions=FN, variants=[{'LN': 40}], tvariants=[{'LN': 40}, {'LN': 100}], unwind=1000, unwindset=lambda v: us(v['LN'] + 2),
-      bounds='chains of 40 blocks (thorough 100), every start block', timeout=300),
+      bounds='two-branch trees (trunk, branch a, branch b) of sizes (5,4,3) (1,3,3) (6,5,0) (2,1,8) (3,0,4), thorough up to 24 blocks; every pair of blocks and every (block, height) pair enumerated; chain index height symbolic', timeout=900),
+    H('locator', 'c54_nav.cpp', 'h_locator', link=NLINK, functions=FN, variants=[{'LN': 24}], tvariants=[{'LN': 40}, {'LN': 100}], unwind=100000, unwindset=lambda v: us(v['LN'] + 2),
+      bounds='chains of 24 blocks (thorough 40, 100), every start block', timeout=300),
+    H('blockproof', 'c54_work.cpp', 'h_blockproof', link=NLINK, functions=FN, unwind=300, tier='thorough',
+      variants=[{'EXP': e} for e in (0, 1, 3, 4, 0x10, 0x17, 0x18, 0x19, 0x1a, 0x1b, 0x1c, 0x1d, 0x1e, 0x1f, 0x20, 0x21, 0x22, 0x23, 0x24, 0xff)],
+      stubs=['base_uint<256>::operator/= replaced in harness blockproof by schoolbook long division (= floor(a/b), re-checked against q*b <= a < (q+1)*b on every native run); the real bit-serial operator is exercised by blockproof_real (short quotients) and C07 division'],
+      bounds='thorough tier: every nBits with compact exponent 0,1,3,4,0x10,0x17..0x24,0xff; mantissa and sign bit symbolic', timeout=900),
+    H('blockproof_real', 'c54_work.cpp', 'h_blockproof', link=NLINK, functions=FN, unwind=300, defines={'REAL_DIV': 1, 'CANONICAL': 1}, ubsan=False,
+      variants=[{'EXP': 0x20}], tvariants=[{'EXP': 0x20}, {'EXP': 0x21}],
+      unwindset='_ZN9base_uintILj256EEdVERKS0_.10:14,_ZN9base_uintILj256EEdVERKS0_.9:14',
+      bounds='real division: nBits with exponent 0x20 (thorough also 0x21) and mantissa >= 0x008000 (targets >= 2^247, work <= 2^10); longer quotients are beyond SAT', timeout=400, backends=['default', 'kissat']),
 ]
